@@ -190,6 +190,17 @@ example : TreeOK 0 (den false ok1 []).2 := (den_good ok1 [] 0 rfl).2
 example : noFallThrough false (seqOf (den false
     (.jJoin (.jJoin (.jTable false [] []) (.jModel false true)) (.jModel false true)) []).2) = true := by decide
 
+/-- `model JOIN table ON table.k = 1 [LIMIT n]` (the model written first): the two operands are swapped
+(`swapModelFirst`), the table is fetched first, then the model is applied and joined -/
+def ok4 : Sel := .joinTables (.jJoin (.jModel false false) (.jTable false [0] [])) true []
+
+example : ((den true ok4 []).1 []).toOption =
+    some ([⟨.fetch, some (.top 0), [], []⟩, ⟨.apply, some (.top 1), [.top 0], []⟩,
+           ⟨.join, some (.top 2), [.top 0, .top 1], []⟩, ⟨.query, some (.top 3), [.top 2], []⟩], .top 3) := by decide
+/-- with three operands a model written first is `NotImplementedError` ("Predictor can't be first element of join syntax") -/
+example : ((den true (.joinTables (.jJoin (.jJoin (.jModel false false) (.jTable false [] [])) (.jTable false [] [])) false []) []).1 []
+    ).toOption = none := by decide
+
 /-- `add_step` keeps a truthy `step_num`: re-adding a numbered step breaks the numbering (model-level
 observation; no planner path does this today) -/
 example : stepsOK 0 (addStep [⟨.fetch, some (.top 0), [], []⟩] ⟨.fetch, some (.top 5), [], []⟩) = false := by decide
